@@ -1,8 +1,18 @@
 import Driver.Loop
+import Driver.BreakerOps
+import Driver.BudgetOps
+import Driver.Strategies
+import Driver.Classify
+import Driver.RetryAfter
 
 def main (args : List String) : IO UInt32 := do
   match args with
   | ["loop"] => Driver.Loop.main; return 0
+  | ["breaker"] => Driver.BreakerOps.main; return 0
+  | ["budget"] => Driver.BudgetOps.main; return 0
+  | ["strategies"] => Driver.Strategies.main; return 0
+  | ["classify"] => Driver.Classify.main; return 0
+  | ["retryafter"] => Driver.RetryAfter.main; return 0
   | _ =>
     IO.eprintln "usage: driver loop|breaker|budget|strategies|classify|retryafter  < lines"
     return 2
